@@ -13,6 +13,8 @@ import AioModel.Generated.C15
                        206 / 416, Content-Range, Content-Length, empty-body rule)
 * `sendLoop`         = `FileResponse._sendfile_fallback` (seek + chunked read loop)
 * `fileResponse`     = `FileResponse.prepare` for a regular file: cascade, then plan, then body
+* `fileResponseRace` = the same with the file changing between the path `stat()` and the `open()`
+                       (in-place rewrite, replacement, deletion); parameter: is the fstat adopted
 * `RangeSpec`, `parseSpec`, `rfcSlice`, `rfcPrecondition` = the *specification*: RFC 9110
   §14.1.1/§14.1.2 (single byte range) and §13.2.2 (precedence of preconditions), written
   independently of the code.
@@ -215,6 +217,30 @@ def fileResponse (chunkSize : Nat) (isHead : Bool) (cur : Str) (mtimeNs : Nat) (
     let p := prepareOpenFile isHead (ifRangeOk mtimeNs h) rng content.length
     { status := p.status, contentRange := p.contentRange, contentLength := p.contentLength,
       body := sendBytes chunkSize content p }
+
+/-! ## the stat → open window of `_make_response`
+
+`_make_response` first `stat()`s the path (the conditional cascade and the regular-file test use
+that result), then opens the file and — `st = os.stat(fobj.fileno())` — replaces the stat result
+by the one of the *opened descriptor*.  Between the two another process may rewrite the file in
+place, replace it (rename) or delete it.  `atOpen` is what `open()` finds: `none` = the file is
+gone (`FileNotFoundError` → 404), `some (content, mtimeNs)` = this version is what gets read.
+`adopt` = the source adopts the fstat result unconditionally (probed from the source). -/
+
+def fileResponseRace (adopt : Bool) (chunkSize : Nat) (isHead : Bool) (curPre : Str) (mtimePre sizePre : Nat)
+    (h : CondHdrs) (rng : Option Str) (atOpen : Option (Bytes × Nat)) : Resp :=
+  match makeResponse curPre mtimePre h with
+  | .precondFailed => { status := Gen.C15.stPrecondFailed, contentRange := .absent, contentLength := some 0, body := [] }
+  | .notModified => { status := Gen.C15.stNotModified, contentRange := .absent, contentLength := none, body := [] }
+  | .send =>
+    match atOpen with
+    | none => { status := Gen.C15.stNotFound, contentRange := .absent, contentLength := none, body := [] }
+    | some (content, mtimeOpen) =>
+      let size := if adopt then content.length else sizePre
+      let mtime := if adopt then mtimeOpen else mtimePre
+      let p := prepareOpenFile isHead (ifRangeOk mtime h) rng size
+      { status := p.status, contentRange := p.contentRange, contentLength := p.contentLength,
+        body := sendBytes chunkSize content p }
 
 /-! ## Specification: RFC 9110 §14.1 (one byte range) and §13.2.2 -/
 
